@@ -214,3 +214,132 @@ Theorem merge_tab_overwrite self other : forall merged,
 Proof.
   induction other as [|[T v] other IH]; intros merged; cbn [merge_tab negb andb]; eauto.
 Qed.
+
+(* ---------- the merge does not depend on the order of the files (table and range) ---------- *)
+(* the other table's data agree with what is already there *)
+Definition compatT (s o : list (R * R)) : Prop :=
+  forall T v sv, In (T, v) o -> tgetR s T = Some sv -> v = sv.
+
+Lemma merge_tab_ok_gen s o : forall merged,
+  NoDup (map fst o) -> (forall T, In T (map fst o) -> tgetR merged T = tgetR s T) ->
+  ((exists t, mergeR s merged o false = Ok t) <-> compatT s o).
+Proof.
+  induction o as [|[T v] o IH]; intros merged Hn Hinv.
+  - split; [intros _ T v sv []|intros _; exists merged; reflexivity].
+  - inversion Hn as [|? ? Hnot Hn']; subst.
+    assert (Hinv' : forall T', In T' (map fst o) -> tgetR (tsetR merged T v) T' = tgetR s T').
+    { intros T' HT'. rewrite tab_get_set. destruct (Reqb T T') eqn:E.
+      - apply Reqb_true in E. subst. contradiction.
+      - apply Hinv. right. exact HT'. }
+    cbn [merge_tab negb andb]. rewrite (Hinv T) by (left; reflexivity).
+    destruct (tgetR s T) as [sv|] eqn:Es.
+    + cbn [neqb Rops]. destruct (Reqb v sv) eqn:Ev; cbn [negb].
+      * apply Reqb_true in Ev. subst sv. rewrite (IH _ Hn' Hinv'). split.
+        -- intros C T' v' sv' [H|H] Hs; [inversion H; subst; congruence|eapply C; eauto].
+        -- intros C T' v' sv' H Hs. eapply C; [right; exact H|exact Hs].
+      * apply Reqb_false in Ev. split; [intros [t Ht]; discriminate|].
+        intros C. exfalso. apply Ev. eapply C; [left; reflexivity|exact Es].
+    + rewrite (IH _ Hn' Hinv'). split.
+      * intros C T' v' sv' [H|H] Hs; [inversion H; subst; congruence|eapply C; eauto].
+      * intros C T' v' sv' H Hs. eapply C; [right; exact H|exact Hs].
+Qed.
+
+Theorem merge_tab_ok_iff s o : NoDup (map fst o) ->
+  ((exists t, mergeR s s o false = Ok t) <-> compatT s o).
+Proof. intros Hn. apply merge_tab_ok_gen; auto. Qed.
+
+Lemma last_get_in o T v : last_get o T = Some v -> In (T, v) o.
+Proof.
+  induction o as [|[k x] o IH]; simpl; [discriminate|].
+  destruct (last_get o T) as [y|] eqn:E.
+  - intros H; inversion H; subst. right. apply IH. reflexivity.
+  - destruct (Reqb k T) eqn:Ek; [|discriminate]. intros H; inversion H; subst. apply Reqb_true in Ek. subst. left. reflexivity.
+Qed.
+
+Lemma in_last_get o T v : NoDup (map fst o) -> In (T, v) o -> last_get o T = Some v.
+Proof.
+  induction o as [|[k x] o IH]; intros Hn Hin; [destruct Hin|]. simpl.
+  inversion Hn as [|? ? Hnot Hn']; subst. destruct Hin as [H|H].
+  - inversion H; subst. destruct (last_get o T) as [y|] eqn:E.
+    + exfalso. apply Hnot. apply last_get_in in E. apply (in_map fst) in E. exact E.
+    + rewrite Reqb_refl. reflexivity.
+  - rewrite (IH Hn' H). reflexivity.
+Qed.
+
+(* the merged Cp table is the same map whichever of two files is merged first *)
+Theorem table_order_free a x y ax axy ay ayx :
+  NoDup (map fst x) -> NoDup (map fst y) ->
+  mergeR a a x false = Ok ax -> mergeR ax ax y false = Ok axy ->
+  mergeR a a y false = Ok ay -> mergeR ay ay x false = Ok ayx ->
+  forall T, tgetR axy T = tgetR ayx T.
+Proof.
+  intros Nx Ny H1 H2 H3 H4 T.
+  rewrite (merge_tab_lookup _ _ _ _ _ H2 T), (merge_tab_lookup _ _ _ _ _ H1 T).
+  rewrite (merge_tab_lookup _ _ _ _ _ H4 T), (merge_tab_lookup _ _ _ _ _ H3 T).
+  destruct (last_get y T) as [vy|] eqn:Ey, (last_get x T) as [vx|] eqn:Ex; try reflexivity.
+  f_equal.
+  assert (C : compatT ax y) by (apply (merge_tab_ok_iff ax y Ny); eauto).
+  apply (C T vy vx (last_get_in _ _ _ Ey)).
+  rewrite (merge_tab_lookup _ _ _ _ _ H1 T), Ex. reflexivity.
+Qed.
+
+(* ... and whether the merge is accepted does not depend on the order either *)
+Definition compatXY (x y : list (R * R)) : Prop :=
+  forall T vx vy, In (T, vx) x -> In (T, vy) y -> vx = vy.
+
+Lemma compat_after a x ax y : NoDup (map fst x) -> mergeR a a x false = Ok ax ->
+  (compatT ax y <-> compatT a y /\ compatXY x y).
+Proof.
+  intros Nx H1. split.
+  - intros C. split.
+    + intros T v sv Hin Hs. destruct (last_get x T) as [vx|] eqn:Ex.
+      * assert (vx = sv).
+        { assert (Cx : compatT a x) by (apply (merge_tab_ok_iff a x Nx); eauto).
+          eapply Cx; [eapply last_get_in; eauto|exact Hs]. }
+        subst. eapply C; [exact Hin|]. rewrite (merge_tab_lookup _ _ _ _ _ H1 T), Ex. reflexivity.
+      * eapply C; [exact Hin|]. rewrite (merge_tab_lookup _ _ _ _ _ H1 T), Ex. exact Hs.
+    + intros T vx vy Hx Hy. symmetry. eapply C; [exact Hy|].
+      rewrite (merge_tab_lookup _ _ _ _ _ H1 T), (in_last_get _ _ _ Nx Hx). reflexivity.
+  - intros [Ca Cxy] T v sv Hin Hs. rewrite (merge_tab_lookup _ _ _ _ _ H1 T) in Hs.
+    destruct (last_get x T) as [vx|] eqn:Ex.
+    + inversion Hs; subst. symmetry. eapply Cxy; [eapply last_get_in; eauto|exact Hin].
+    + eapply Ca; eauto.
+Qed.
+
+Theorem table_acceptance_order_free a x y :
+  NoDup (map fst x) -> NoDup (map fst y) ->
+  ((exists ax axy, mergeR a a x false = Ok ax /\ mergeR ax ax y false = Ok axy) <->
+   (exists ay ayx, mergeR a a y false = Ok ay /\ mergeR ay ay x false = Ok ayx)).
+Proof.
+  intros Nx Ny.
+  assert (G : forall p q, NoDup (map fst p) -> NoDup (map fst q) ->
+    ((exists ap apq, mergeR a a p false = Ok ap /\ mergeR ap ap q false = Ok apq) <->
+     (compatT a p /\ compatT a q /\ compatXY p q))).
+  { intros p q Np Nq. split.
+    - intros (ap & apq & H1 & H2).
+      assert (C1 : compatT a p) by (apply (merge_tab_ok_iff a p Np); eauto).
+      assert (C2 : compatT ap q) by (apply (merge_tab_ok_iff ap q Nq); eauto).
+      apply (compat_after a p ap q Np H1) in C2. tauto.
+    - intros (C1 & C2 & C3).
+      destruct (proj2 (merge_tab_ok_iff a p Np) C1) as [ap H1].
+      assert (C : compatT ap q) by (apply (compat_after a p ap q Np H1); tauto).
+      destruct (proj2 (merge_tab_ok_iff ap q Nq) C) as [apq H2]. eauto. }
+  rewrite (G x y Nx Ny), (G y x Ny Nx). unfold compatXY. split; intros (A & B & C); (split; [|split]); auto;
+    intros T v1 v2 H1 H2; symmetry; eapply C; eauto.
+Qed.
+
+(* the valid range of the merged correlation is the union, in any order *)
+Lemma Rleb_total a b : Rleb a b = true \/ Rleb b a = true.
+Proof. unfold Rleb. destruct (Rle_dec a b), (Rle_dec b a); auto. exfalso. lra. Qed.
+
+Theorem range_union_order_free (a x y : option (R * R)) :
+  range_union (K:=Rops) (range_union (K:=Rops) a x) y = range_union (K:=Rops) (range_union (K:=Rops) a y) x.
+Proof.
+  destruct a as [[a1 a2]|], x as [[x1 x2]|], y as [[y1 y2]|]; simpl; try reflexivity;
+    unfold nmin, nmax; simpl; unfold Rleb;
+    repeat match goal with
+           | |- context [Rle_dec ?p ?q] => destruct (Rle_dec p q)
+           | H : context [Rle_dec ?p ?q] |- _ => destruct (Rle_dec p q)
+           end;
+    try reflexivity; apply f_equal; apply f_equal2; lra.
+Qed.
